@@ -52,7 +52,8 @@ def run(R, env):
     sig = {}
     for f, fns in tfs.items():
         if fns:
-            sig[f.split("/")[-1]] = {x["name"]: (tuple(a.split(":", 1)[1] for a in x["args"]), x["ret"], x["vis"]) for x in fns}
+            # the interface = the public functions (private helpers of a back-end are its own business)
+            sig[f.split("/")[-1]] = {x["name"]: (tuple(a.split(":", 1)[1] for a in x["args"]), x["ret"], x["vis"]) for x in fns if x["vis"].startswith("pub")}
     R.ob("C19.R1", "two-backends", set(sig) == {"osmosis.rs", "miniwasm.rs"}, "token-factory back-end files: %s" % sorted(sig), fn="staking::tokenfactory")
     if set(sig) == {"osmosis.rs", "miniwasm.rs"}:
         a, b = sig["osmosis.rs"], sig["miniwasm.rs"]
@@ -74,7 +75,7 @@ def run(R, env):
                 sd = agg_field(t, "subdenom")
                 R.ob("C19.R1", "%s:create:subdenom<-p1" % cfgname, sd is not None and p(2)(sd), "subdenom <- %s" % fmt(sd or ("none",))[:80], loc=b.loc(bi), fn=fk)
             else:
-                amt, den = shared.coin_parts(agg_field(t, "amount") or ("none",))
+                amt, den = shared.coin_parts(agg_field(t, "amount") or ("none",), 0, prog)
                 good = amt is not None and den is not None and amt == ("field", amt[1], "amount") and p(2)(amt[1]) and den == ("field", den[1], "denom") and p(2)(den[1])
                 R.ob("C19.R1", "%s:%s:amount<-p1" % (cfgname, kind), good, "amount <- (%s, %s)" % (fmt(den or ("none",))[:60], fmt(amt or ("none",))[:60]), loc=b.loc(bi), fn=fk)
                 fld = "mint_to_address" if kind == "mint" else "burn_from_address"
@@ -100,21 +101,23 @@ def run(R, env):
                 rp = adt.replace("initia_proto::", "")
                 fqn = by_rust.get(rp)
                 R.ob("C19.R2", "miniwasm:%s:struct-known" % kind, fqn is not None, "struct %s is not a generated message of the bindings" % adt, loc=b.loc(bi), fn=fk)
-                stargates = list(aggregates(c, lambda a_, v: a_.endswith("CosmosMsg") and v == "Stargate"))
+                from engine.analysis import aggregates_deep, resolve_terms, ok_payload
+                stargates = [(sbi_, ssi_, st_) for c_, path_, sbi_, ssi_, st_ in aggregates_deep(prog, c, lambda a_, v: a_.endswith("CosmosMsg") and v == "Stargate", 2)]
                 R.ob("C19.R2", "miniwasm:%s:one-stargate" % kind, len(stargates) == 1, "found %d Stargate constructions" % len(stargates), fn=fk)
                 for sbi, ssi, st in stargates:
                     url, val = agg_field(st, "type_url"), agg_field(st, "value")
-                    R.ob("C19.R2", "miniwasm:%s:type_url" % kind, url is not None and url[0] == "const" and fqn is not None and url[2] == "/" + fqn, "type_url %s, expected \"/%s\" (the protobuf name of %s)" % (fmt(url or ("none",)), fqn, adt.split("::")[-1]), loc=b.loc(sbi, ssi), fn=fk)
+                    R.ob("C19.R2", "miniwasm:%s:type_url" % kind, url is not None and fqn is not None and const_str(url) == "/" + fqn, "type_url %s, expected \"/%s\" (the protobuf name of %s)" % (fmt(url or ("none",)), fqn, adt.split("::")[-1]), loc=b.loc(sbi, ssi), fn=fk)
                     carries = val is not None and any(s_[0] == "call" and s_[1].endswith("MessageExt::to_bytes") and norm(s_[2][0]) == norm(t) for s_ in subterms(val))
                     R.ob("C19.R2", "miniwasm:%s:value-is-to_bytes-of-that-message" % kind, carries, "Stargate.value is not to_bytes() of the %s built in this function" % adt.split("::")[-1], loc=b.loc(sbi, ssi), fn=fk)
-                oks = [e for e in exits(c) if e["kind"] == "ok"]
-                good = bool(oks) and all(e["term"][3][0][2][0] == "agg" and e["term"][3][0][2][2] == "Stargate" for e in oks)
+                okv = ok_payload(resolve_terms(prog, c.T.return_term(), 2))
+                good = all(a_[0] == "agg" and a_[2] == "Stargate" for a_ in (okv[1] if okv[0] == "phi" else (okv,)))
                 R.ob("C19.R2", "miniwasm:%s:returns-the-stargate" % kind, good, "the function's Ok value is not the Stargate message", fn=fk)
             else:
                 want = "osmosis_std::types::osmosis::tokenfactory::v1beta1::" + adt.split("::")[-1]
                 R.ob("C19.R2", "default:%s:osmosis-type" % kind, adt == want and OSMOSIS_FQN[kind] in ref, "message type is %s; expected %s (FQN %s of the reference crate)" % (adt, want, OSMOSIS_FQN[kind]), loc=b.loc(bi), fn=fk)
-                oks = [e for e in exits(c) if e["kind"] == "ok"]
-                good = bool(oks) and all(norm(e["term"][3][0][2]) == norm(t) for e in oks)
+                from engine.analysis import resolve_terms, ok_payload
+                okv = ok_payload(resolve_terms(prog, c.T.return_term(), 2))
+                good = norm(okv) == norm(resolve_terms(prog, t, 2))
                 R.ob("C19.R2", "default:%s:returns-the-message" % kind, good, "the function's Ok value is not the message converted with Into<CosmosMsg>", fn=fk)
         # ---- R4 call sites
         sites = shared.site_contexts(prog, CRATE, env)
